@@ -170,14 +170,13 @@ def _spec_generic(p):
                 if len(q.t) == 1:
                     ((m, c),) = q.t.items()
                     q1 = Poly({m: ONE})
-                    # monomial: zero iff one of its k factors is zero; definite if it is a P(definite) or norm
-                    if is_definite(q1 * q1) and all(b[0] in ("P", "s", "num") or alg._atom_nonneg(b) and b[0] != "k" for b, _ in m):
+                    # a monomial vanishes iff one factor does; q1^2 definite  <=>  never zero for k != 0
+                    if all(b[0] in ("k", "P", "abs") or alg._atom_pos(b) for b, _ in m) and is_definite(q1 * q1):
                         return Poly()
                 else:
                     c0, g, qq = alg.primitive(q)
-                    if is_definite(qq) and all(alg._atom_nonneg(b) and b[0] != "k" for b, _ in g):
-                        return Poly()
-                    if is_definite(-qq) and all(alg._atom_nonneg(b) and b[0] != "k" for b, _ in g):
+                    gok = all(alg._atom_pos(b) for b, _ in g)
+                    if gok and (is_definite(qq) or is_definite(-qq)):
                         return Poly()
         return None
 
@@ -340,15 +339,16 @@ def fft_forward(it, t, axes, s, norm, node):
     H = as_poly(floordiv(it, N, 2, node)) + 1
     shape = t.shape[:-1] + (H,)
 
-    def lin(e):
-        out = Poly()
-        for c, const, var in split_terms(e, varies):
-            out = out + Poly({const: c}) * Poly.atom((tag, Poly({var: ONE}), n) + extra)
-        return out
-
     meta = dict(t.meta)
     meta["fourier"] = True
-    return Tens(shape, [lin(e) for e in t.data], meta)
+    return Tens(shape, [forward_entry(e, n, tag, extra) for e in t.data], meta)
+
+
+def forward_entry(e, n, tag="F", extra=()):
+    out = Poly()
+    for c, const, var in split_terms(e, varies):
+        out = out + Poly({const: c}) * Poly.atom((tag, Poly({var: ONE}), n) + extra)
+    return out
 
 
 def fft_inverse(it, t, axes, s, norm, node):
